@@ -1277,6 +1277,7 @@ def fresh_like(I, v, hint):
         n = I.fresh(INT, hint + '_n')
         I.p.assume(n.t >= 0)
         v.arr = z3.Const(I.p.fresh_name(hint), v.arr.sort())
+        v.src = None
         if v.arr2 is not None:
             v.arr2 = z3.Const(I.p.fresh_name(hint + '_s'), v.arr2.sort())
         v.n = n
